@@ -3,6 +3,7 @@
 ./check <property>, undoes the change. Usage: tools/seedtest.py [seed ...] [--props C01,C02] [--tier quick]"""
 import subprocess, sys, os, glob, json, re
 ROOT = os.path.dirname(os.path.dirname(os.path.abspath(__file__)))
+REPO = os.environ.get("VERIF_REPO", "/repo")   # a scratch worktree can stand in for /repo (the check honours the same variable)
 args = [a for a in sys.argv[1:] if not a.startswith("--")]
 props = None
 tier = "quick"
@@ -17,8 +18,8 @@ res = {}
 for sd in seeds:
     patch = os.path.join(ROOT, "seeded", sd, "patch.diff")
     pl = props or [sd[:3]]
-    assert subprocess.run(["git", "-C", "/repo", "status", "--porcelain"], capture_output=True, text=True).stdout.strip() == "", "/repo not clean"
-    subprocess.run(["git", "-C", "/repo", "apply", patch], check=True)
+    assert subprocess.run(["git", "-C", REPO, "status", "--porcelain"], capture_output=True, text=True).stdout.strip() == "", "/repo not clean"
+    subprocess.run(["git", "-C", REPO, "apply", patch], check=True)
     try:
         for p in pl:
             # evidence files must come from clean-tree runs: keep the current one aside
@@ -35,4 +36,4 @@ for sd in seeds:
             res[(sd, p)] = kind
             print("%-6s %-4s %-18s rc=%d %s" % (sd, p, kind, o.returncode, summ[0] if summ else o.stdout[-300:]), flush=True)
     finally:
-        subprocess.run(["git", "-C", "/repo", "checkout", "--", "."], check=True)
+        subprocess.run(["git", "-C", REPO, "checkout", "--", "."], check=True)
